@@ -515,6 +515,13 @@ def install(E):
     def b_memoryview(x):
         if not isinstance(x, Bytes):
             E.throw("TypeError", "memoryview: a bytes-like object is required")
+        if x.mutable and x.kind == "bytearray":
+            # a view of a whole bytearray shares its cells (reads see later writes to the bytearray and writes through
+            # the view reach it); slices of a view are still modelled as copies
+            E.assumptions_used.add("memoryview-slices-as-copies")
+            mv = E.mk_bytes([], True, "memoryview", x)
+            mv.items = x.items
+            return mv
         E.assumptions_used.add("memoryview-as-copy")
         return E.mk_bytes(x.items, False, "memoryview", x.base if x.kind == "memoryview" else x)
 
